@@ -48,9 +48,9 @@ static void row(pv_mlang* L, const pv_mseed* m, polyseed_data* s, unsigned A, pv
         unsigned B = k == 0 ? A : (k < 3 ? (A ^ (1u << pv_randn(rng, 11))) : pv_randn(rng, 2048));
         pv_w->fail_countdown = 1; d = NULL;
         st = (k & 1) ? pv_api_decode(in, B, NULL, &d) : pv_api_decode_explicit(in, B, L->lib, &d);
-        pv_w->fail_countdown = 0;
+        pv_w->fail_countdown = 0; bool refused = pv_w->alloc_failed_in_call > 0;
         PV_COUNT("evaluations", 1);
-        int want = B == A ? POLYSEED_ERR_MEMORY : POLYSEED_ERR_CHECKSUM;
+        int want = B == A ? (refused ? POLYSEED_ERR_MEMORY : POLYSEED_OK) : POLYSEED_ERR_CHECKSUM;
         if ((k & 1) && B != A) { pv_mdecode md; pv_m_decode(in, B, NULL, 7, &md); if (md.status == POLYSEED_ERR_MULT_LANG) want = POLYSEED_ERR_MULT_LANG; }
         if ((k & 1) && B == A) { pv_mdecode md; pv_m_decode(in, B, NULL, 7, &md); if (md.status == POLYSEED_ERR_MULT_LANG) want = POLYSEED_ERR_MULT_LANG; }
         if (st != want) { pv_violation(B == A ? "C05/own-coin-with-failing-allocator" : "C05/other-coin-with-failing-allocator", "%s: phrase for coin %u decoded with coin %u while the allocator fails -> %s, expected %s", L->name_en, A, B, pv_status_name(st), pv_status_name(want)); if (st == POLYSEED_OK) pv_api_free(d); }
